@@ -189,6 +189,16 @@ BLOCK_TARGETS = [
         rewrites=[(r"attempts\.len\(\)", "n_attempts"), (r"DNS_TIMEOUT\.write\(\)\.await", "timeout_cell")],
     ),
     dict(
+        # C07: the timer arm of send_udp's select loop: give up after a bounded number of transmissions, otherwise back off
+        name="outquery_retry_arm", file="crates/erbium-core/src/dns/outquery.rs",
+        header=r"async\s+fn\s+send_udp\s*\([^{]*\{",
+        start=r"if\s+attempts\.len\(\)\s*[<>=!]+\s*\d+\s*\{\s*return\s+Err\(Error::Timeout\)", end=r"\}\s*,?\s*\}\s*\}\s*\Z",
+        signature="pub fn lifted_outquery_retry_arm(n_attempts: usize, timeout_in: Duration, jitter_source: &JitterShim) -> Result<Duration, Error>",
+        prologue="let mut timeout = timeout_in;\n    ", epilogue="Ok(timeout)",
+        rewrites=[(r"attempts\.len\(\)", "n_attempts"), (r"OUT_QUERY_RETRY\s*\.with_label_values\([^;]*\);", ""),
+                  (r"rand::rng\(\)\.random_range\(", "jitter_source.random_range(")],
+    ),
+    dict(
         name="outquery_accept_reply", file="crates/erbium-core/src/dns/outquery.rs",
         header=r"async\s+fn\s+handle_query_internal\s*\([^{]*\{",
         start=r"let\s+out_reply\s*;", end=r"if\s+out_reply\.qid\s*!=\s*id",
